@@ -16,9 +16,13 @@ def job(sub, runtime, budget, with_sup):
         starts = [e for e in r['cbs'] if e[1] == 'start']
         claims['at_most_one_callback_per_iteration'] = len(starts) <= 1
         claims = {c: v for c, v in claims.items() if c in ('callbacks_never_overlap', 'at_most_one_callback_per_iteration')}
+        # an iteration that consumed the kill signal must end the loop as killed (that is what keeps post_stop from running: L2 only sees the class)
+        kill_taken = any(e[1] == 'sigq' for e in r['recvs'])
+        if r['klass'] is not None:
+            claims['kill_signal_ends_the_loop_as_killed'] = (not kill_taken) or r['klass'][0] == 'killed'
         lp.record(sub, '%s.iteration.path%d' % (tag, k), r['state'], claims, 'C01.iteration',
                   sample={'layer': 'L1 process_message', 'class': r['klass'], 'callbacks': [e[1:3] for e in r['cbs']]},
-                  on_cex=lambda m, r=r: replay(tag, r['state'].trace))
+                  on_cex=lambda m, r=r: replay(tag, iteration_as_lifecycle(r)))
     for k, r in enumerate(res):
         complete = r['kind'] == 'ready'
         if r['kind'] in ('unwind', 'abort'):
@@ -43,6 +47,15 @@ def job(sub, runtime, budget, with_sup):
     sub.extra.setdefault('seen', {})[tag] = sorted(seen)
     for w in ('graceful_exit_with_post_stop', 'killed_without_post_stop', 'second_handler_panics', 'pre_start_fails', 'killed_during_post_start'):
         sub.note_witness('C01.%s.%s' % (tag, w), w in seen)
+
+
+def iteration_as_lifecycle(r):
+    """a whole-lifecycle trace around one L1 iteration (for the native scripted actor): successful start, the iteration's callbacks, and the exit the
+    property demands for it"""
+    pre = [('CB', 'start', 'pre_start', -1), ('CB', 'end', 'pre_start', -1, 'ok'), ('START_OK',), ('CB', 'start', 'post_start', -2), ('CB', 'end', 'post_start', -2, 'ok')]
+    kill_taken = any(e[1] == 'sigq' for e in r['recvs'])
+    exits = [('LOOPEXIT', 'killed')] if kill_taken else [e for e in r['state'].trace if e[0] == 'LOOPEXIT']
+    return pre + list(r['cbs']) + exits
 
 
 def replay(tag, trace):
